@@ -135,6 +135,7 @@ func verbLevelIn(name string, levels map[string]int64) string {
 
 func checkC01(c *Ctx) {
 	r := c.R
+	r.Rule("R13.1", "(shared with C13) an admitted record is not lost after the gate: the fan-out loop visits every member whatever the earlier members returned")
 	r.Rule("R10.3", "(shared with C10) the threshold a logger holds is the level it was given: newentry / SetLevel / Level() store and return the level value itself (nothing-else rule on creation and on the level field)")
 	r.Rule("R01.8", "the package-level verbs emit for every kind of default logger: each spine function that dispatches on the dynamic type of the default logger has an emitting arm for *logimp and for *Entry (what New() returns and what its chained setters return)")
 	r.Rule("R03.1", "(shared with C03) an admitted call produces output: the destination selected for a severity is never an empty per-level list while the documented routing names another (the routing decision function equals the documented one)")
@@ -168,6 +169,7 @@ func checkC01(c *Ctx) {
 		c01DefaultKinds(c, p, m, "R01.8")
 		c10Creation(c, p, m)
 		c03Routing(c, p, m)
+		c13Fanout(c, p, m)
 		c17Register(c, p, m)
 	}
 	c.Floor["R01.1"] = 58
@@ -343,6 +345,46 @@ func c01Gates(c *Ctx, p *Prog, m *Model, tags string) {
 						continue
 					}
 					bad = fmt.Sprintf("a path from %s to the return at %s passes no emission call: an admitted record can be dropped", map[bool]string{true: "the admitting edge of the gate", false: "the function entry"}[gated], p.Pos(instrPos(rb.Instrs[len(rb.Instrs)-1])))
+				}
+			}
+		}
+		// ... and the gate is asked first: a gated function does not return before its admission test was evaluated
+		// (a validity / fast-path test in front of the gate decides admission in this one entry point only)
+		if gated && bad == "" {
+			G := map[*ssa.BasicBlock]bool{}
+			for _, s := range m.Sites[fn] {
+				if g, _ := m.localGate(s); g != nil {
+					G[g.Guard.Blk] = true
+				}
+			}
+			avoid := func(x *ssa.BasicBlock) bool { return G[x] || H[x] || escape[x] != "" }
+			// the tests in front of the gate that read the severity (the quantity the gate decides)
+			for _, d := range fn.Blocks {
+				iff := ifOf(d)
+				if iff == nil || avoid(d) || bad != "" {
+					continue
+				}
+				if d != fn.Blocks[0] && !reachAvoiding(fn.Blocks[0], d, avoid) {
+					continue
+				}
+				onLevel := false
+				for _, prm := range fn.Params {
+					if typeName(prm.Type()) == "Level" && dependsOn(iff.Cond, prm) {
+						onLevel = true
+					}
+				}
+				if !onLevel {
+					continue
+				}
+				for _, sc := range d.Succs {
+					for _, rb := range rets {
+						if avoid(rb) || avoid(sc) {
+							continue
+						}
+						if sc == rb || reachAvoiding(sc, rb, avoid) {
+							bad = fmt.Sprintf("the return at %s is reachable without the admission test having been asked, over a test of the severity at %s: a test in front of the gate decides admission in this entry point only (its siblings and Enabled answer differently)", p.Pos(instrPos(rb.Instrs[len(rb.Instrs)-1])), p.Pos(instrPos(iff)))
+						}
+					}
 				}
 			}
 		}
